@@ -1,4 +1,5 @@
 import FxVerif.Model.C10
+import FxVerif.Model.C10Env
 import FxVerif.Model.C09
 import FxVerif.Proofs.C10
 import FxVerif.Model.C10Tok
@@ -1143,6 +1144,175 @@ theorem nested_static_context_can_write :
   let hd (k : FxVerif.Model.C09.Kind) : CallHdr (List Nat) :=
     { callc := 10, cap := 500000, stip := 0, kind := k, xfer := none, funded := fun _ => true, swallow := false, pOk := 5, pFail := 5 }
   refine ⟨[.call (hd .staticcall) [Prog.preA (hd .call) 100 writer]], ⟨fun _ => 0, [], []⟩, ⟨_, _, rfl, rfl⟩, ?_, ?_⟩ <;> decide
+
+/-! ### round 5 — histories in which the staking module SLASHES the validator between two calls; unbonding amounts -/
+
+/-- `Keeper.Slash` at the current height, as the model has it: the validator's bonded tokens drop by `min burn tokens`;
+no delegation (whole shares, fractional shares), balance, reward, unbonding entry, allowance or queued withdrawal is
+touched, and the validator's delegator shares stay — every delegation loses worth in the same proportion, nobody's
+RECORD changes -/
+theorem slash_touches_only_validator_tokens (w : World) (burn : Nat) :
+    (w.slash burn).shares = w.shares ∧ (w.slash burn).dust = w.dust ∧ (w.slash burn).bal = w.bal ∧
+    (w.slash burn).rewards = w.rewards ∧ (w.slash burn).unbonding = w.unbonding ∧ (w.slash burn).allow = w.allow ∧
+    (w.slash burn).pool = w.pool ∧ (w.slash burn).nextId = w.nextId ∧ (w.slash burn).vShr = w.vShr ∧
+    (w.slash burn).vTok + min burn w.vTok = w.vTok := by
+  refine ⟨rfl, rfl, rfl, rfl, rfl, rfl, rfl, rfl, rfl, ?_⟩
+  simp only [World.slash]; omega
+
+/-- a history without slashes is a history in the sense of rounds 2–4: the new notions extend the old ones -/
+theorem env_history_without_slashes (ops : List HOp) (w : World) (a c : Addr) :
+    runE (ops.map .call) w = runH ops w ∧ totalSpentE a c (ops.map .call) w = totalSpent a c ops w ∧
+    totalMovedE a (ops.map .call) w = totalMoved a ops w ∧ callsOf (ops.map .call) = ops := by
+  induction ops generalizing w with
+  | nil => exact ⟨rfl, rfl, rfl, rfl⟩
+  | cons o r ih =>
+    obtain ⟨h1, h2, h3, h4⟩ := ih (applyOp w o)
+    refine ⟨?_, ?_, ?_, ?_⟩
+    · simpa [runE, runH, applyE] using h1
+    · simp only [List.map_cons, totalSpentE, totalSpent, spentByE, applyE]; rw [h2]
+    · simp only [List.map_cons, totalMovedE, totalMoved, movedFromE, applyE]; rw [h3]
+    · simp only [List.map_cons, callsOf]; rw [h4]
+
+/-- HISTORIES WITH SLASHES, allowance clause: for EVERY interleaving of precompile calls (any callers, call kinds, switch
+settings) with slashes of the validator (any power, any fraction, any number of them, at any position), every start world
+and every account `a` that is not the direct caller of one of the calls: allowance `a → c` at the end + everything `c`
+moved out of `a` through `transferFromShares` = allowance at the start -/
+theorem env_history_allowance_exact (steps : List EStep) (w : World) (a c : Addr)
+    (ha : ∀ o, EStep.call o ∈ steps → o.env.caller ≠ a) :
+    (runE steps w).allow a c + totalSpentE a c steps w = w.allow a c := by
+  induction steps generalizing w with
+  | nil => simp [runE, totalSpentE]
+  | cons s r ih =>
+    have hr := ih (applyE w s) (fun o ho => ha o (List.mem_cons_of_mem _ ho))
+    simp only [runE, List.foldl_cons, totalSpentE] at hr ⊢
+    cases s with
+    | call o =>
+      have hstep := (step_allowance_exact w o a c (ha o (List.mem_cons_self ..))).1
+      simp only [applyE, spentByE] at hr ⊢
+      omega
+    | slash p q k =>
+      simp only [applyE, spentByE] at hr ⊢
+      have : (w.slash (slashAmount p q k)).allow a c = w.allow a c := rfl
+      omega
+
+/-- HISTORIES WITH SLASHES, first sentence: over every such interleaving `a` keeps its funds (balance + pending rewards),
+its unbonding entries and its queued withdrawals, its fractional shares are exactly what they were, and it loses at most
+the whole shares that spenders moved within their allowances — a slash between two calls opens no way to take more
+(e.g. an allowance counted in shares is not re-valued by the changed rate) -/
+theorem env_history_noncaller_safe (steps : List EStep) (w : World) (a : Addr)
+    (ha : ∀ o, EStep.call o ∈ steps → o.env.caller ≠ a) :
+    Keeps w (runE steps w) a ∧ w.shares a ≤ (runE steps w).shares a + totalMovedE a steps w ∧
+    (runE steps w).dust a = w.dust a := by
+  induction steps generalizing w with
+  | nil => exact ⟨keeps_refl _ _, Nat.le_refl _, rfl⟩
+  | cons s r ih =>
+    obtain ⟨k, hsh, hd⟩ := ih (applyE w s) (fun o ho => ha o (List.mem_cons_of_mem _ ho))
+    simp only [runE, List.foldl_cons, totalMovedE] at k hsh hd ⊢
+    cases s with
+    | call o =>
+      have hin := ha o (List.mem_cons_self ..)
+      obtain ⟨h1, _, h3⟩ := step_shares w o a hin
+      have hdust : (applyOp w o).dust a = w.dust a := by
+        have := history_noncaller_dust_unchanged [o] w a (fun o' ho' => by simp at ho'; subst ho'; exact hin)
+        simpa [runH] using this
+      simp only [applyE, movedFromE] at k hsh hd ⊢
+      exact ⟨keeps_trans h3 k, by omega, hd.trans hdust⟩
+    | slash p q c =>
+      simp only [applyE, movedFromE] at k hsh hd ⊢
+      have hk : Keeps w (w.slash (slashAmount p q c)) a :=
+        ⟨Nat.le_refl _, Nat.le_refl _, fun e he hs => ⟨e, he, rfl, hs, Nat.le_refl _⟩⟩
+      have hs : (w.slash (slashAmount p q c)).shares a = w.shares a := rfl
+      have hdu : (w.slash (slashAmount p q c)).dust a = w.dust a := rfl
+      exact ⟨keeps_trans hk k, by omega, hd.trans hdu⟩
+-- non-vacuity: account 1 delegates, the validator is slashed by half, account 1 delegates again; account 4 never calls
+example : ∀ o, EStep.call o ∈ [EStep.call (⟨.call, [], "a".toList, "b".toList, ⟨1, 1, 6, 0⟩, .delegate 3⟩ : HOp), .slash 50 1 50,
+    .call ⟨.call, [], "a".toList, "b".toList, ⟨1, 1, 6, 0⟩, .delegate 3⟩] → o.env.caller ≠ 4 := by
+  intro o ho; simp at ho; rcases ho with rfl | rfl <;> decide
+
+/-- … in 10^-18 share units: the delegation of a non-caller shrinks by nothing but allowance-covered whole shares, under
+every interleaving of calls and slashes -/
+theorem env_history_noncaller_raw (steps : List EStep) (w : World) (a : Addr)
+    (ha : ∀ o, EStep.call o ∈ steps → o.env.caller ≠ a) :
+    w.raw a ≤ (runE steps w).raw a + totalMovedE a steps w * shareScale := by
+  obtain ⟨_, hsh, hd⟩ := env_history_noncaller_safe steps w a ha
+  simp only [World.raw, hd]
+  have := Nat.mul_le_mul_right shareScale hsh
+  rw [Nat.add_mul] at this
+  omega
+example : ∀ o, EStep.call o ∈ [EStep.slash 50 1 50] → o.env.caller ≠ 4 := by intro o ho; simp at ho
+
+/-- an `undelegateV2` the regenerated dispatcher lets through (round 5: the unbonding entry is part of the compared line):
+it takes exactly the shares `amt` tokens are worth at the validator's CURRENT rate out of the DIRECT CALLER's delegation —
+never more than it holds —, the unbonding entry created is the CALLER's and holds exactly the tokens that leave the
+validator (`RemoveDelShares`: `tokensFor`, nothing is created or lost between validator and entry), the caller's pending
+rewards go to the caller, and no allowance, no queued withdrawal and nobody else's shares, dust, balance, rewards or
+unbonding entry is touched -/
+theorem undelegate_exact (dis : List (List Char)) (ro : Bool) (addr mid : List Char) (env : Env) (amt : Nat) (w w' : World)
+    (h : (runGen dis ro addr mid env (.undelegate amt) w).out = .ok w') :
+    w.sharesFor amt ≤ w.raw env.caller ∧ w'.raw env.caller = w.raw env.caller - w.sharesFor amt ∧
+    w'.unbonding env.caller = w.unbonding env.caller + w.tokensFor (w.sharesFor amt) ∧
+    w'.vTok = w.vTok - w.tokensFor (w.sharesFor amt) ∧ w'.vShr = w.vShr - w.sharesFor amt ∧
+    (∀ a, a ≠ env.caller → w'.shares a = w.shares a ∧ w'.dust a = w.dust a ∧ w'.bal a = w.bal a ∧
+      w'.rewards a = w.rewards a ∧ w'.unbonding a = w.unbonding a) ∧
+    w'.bal env.caller = w.bal env.caller + w.rewards env.caller ∧ w'.rewards env.caller = 0 ∧
+    w'.allow = w.allow ∧ w'.pool = w.pool := by
+  rw [runGen_refines _ _ _ _ _ _ _ (by rfl)] at h
+  unfold specRun at h
+  split at h
+  · cases h
+  · split at h
+    · cases h
+    · simp only [specEffectV, specValueOk, specEffect, effect, Call.name] at h
+      split at h
+      · split at h
+        · cases h
+        · rename_i hlt
+          cases h
+          have hr : ∀ x, (claim w env.caller).raw x = w.raw x := fun _ => rfl
+          have hs : (claim w env.caller).sharesFor amt = w.sharesFor amt := rfl
+          refine ⟨by omega, ?_, by simp [World.setRaw, claim, upd]; rfl, by simp [World.setRaw, claim]; rfl,
+            by simp [World.setRaw, claim]; rfl, ?_, by simp [World.setRaw, claim, upd], by simp [World.setRaw, claim, upd],
+            by simp [World.setRaw, claim], by simp [World.setRaw, claim]⟩
+          · rw [setRaw_raw, hr, hs]
+          · intro a ha
+            simp [World.setRaw, claim, upd, ha]
+      · cases h
+-- non-vacuity: undelegating 3 tokens on a validator slashed by half (100 tokens for 200 shares) takes 6 shares, entry of 3
+example : ∃ w', (runGen [] false "0x0000000000000000000000000000000000001003".toList "x".toList ⟨1, 9, 6, 0⟩ (.undelegate 3)
+    ⟨fun _ => 10, fun _ => 10, fun _ => 2, fun _ => 0, fun _ _ => 0, [], 1, fun _ => 0, 100, 200 * shareScale⟩).out = .ok w' ∧
+    w'.shares 1 = 4 ∧ w'.unbonding 1 = 3 ∧ w'.vTok = 97 := by
+  rw [runGen_refines _ _ _ _ _ _ _ (by rfl)]
+  exact ⟨_, rfl, by decide, by decide, by decide⟩
+
+/-- a `redelegateV2` the regenerated dispatcher lets through takes `redelegateOut` tokens — the worth, at the CURRENT rate,
+of the shares `amt` tokens stand for — out of the validator, at least one base unit (`ErrTinyRedelegationAmount`), and it is
+the direct caller's delegation they are taken from (`redelegate_exact`); these are the tokens `BeginRedelegation` hands to
+the destination validator (round 5: the caller's delegation THERE is part of the compared line, `d1=`) -/
+theorem redelegate_moves_the_callers_worth (dis : List (List Char)) (ro : Bool) (addr mid : List Char) (env : Env) (amt : Nat)
+    (w w' : World) (h : (runGen dis ro addr mid env (.redelegate amt) w).out = .ok w') :
+    w'.vTok = w.vTok - redelegateOut w env.caller amt ∧ 0 < redelegateOut w env.caller amt ∧
+    w'.vShr = w.vShr - w.sharesFor amt := by
+  rw [runGen_refines _ _ _ _ _ _ _ (by rfl)] at h
+  unfold specRun at h
+  split at h
+  · cases h
+  · split at h
+    · cases h
+    · simp only [specEffectV, specValueOk, specEffect, effect, Call.name] at h
+      split at h
+      · split at h
+        · cases h
+        · split at h
+          · cases h
+          rename_i hz
+          cases h
+          exact ⟨by simp [World.setRaw, redelegateOut]; rfl, Nat.pos_of_ne_zero hz, by simp [World.setRaw]; rfl⟩
+      · cases h
+example : ∃ w', (runGen [] false "0x0000000000000000000000000000000000001003".toList "x".toList ⟨1, 9, 6, 0⟩ (.redelegate 3)
+    ⟨fun _ => 10, fun _ => 10, fun _ => 2, fun _ => 0, fun _ _ => 0, [], 1, fun _ => 0, 100, 200 * shareScale⟩).out = .ok w' ∧
+    w'.vTok = 97 := by
+  rw [runGen_refines _ _ _ _ _ _ _ (by rfl)]
+  exact ⟨_, rfl, by decide⟩
 
 /-! ## round 3 — the ERC-20 leg of the payable crosschain methods (`crossChain` / `increaseBridgeFee` with a token), over
 regenerated code: `Gen.C10Tok.erc20Leg` = `handlerERC20Token` with `convertERC20` inlined, interpreted by `Model/C10Tok.lean` -/
